@@ -163,9 +163,9 @@ def _status_docs():
     b = {"name": "pkg", "description": long1, "notes": "line one\nline 2\nline three", "v": [1, 3], "extra": long2}
     # text containing the line separators other than "\n" (the status writer re-assembles the output line by line)
     sep = "one\u2028two\x0cthree\x0bfour\x1cfive\x85six\u2029seven"
-    a2, b2 = dict(a, sep=sep, cr="x\ry"), dict(b, sep=sep, cr="x\rz")
-    xa = f'<r id="1"><t>{sep}</t><u>first\nsecond</u><v>{long1}</v></r>'
-    xb = f'<r id="2"><t>{sep}</t><u>first\nsecond!</u><v>{long2}</v></r>'
+    a2, b2 = dict(a, sep=sep, cr="x\ry", crlf="one\r\ntwo\r\nthree"), dict(b, sep=sep, cr="x\rz", crlf="one\r\ntwo\r\n3")
+    xa = f'<r id="1"><t>{sep}</t><u>first\nsecond</u><w>dos&#13;\nline&#13;\nend</w><v>{long1}</v></r>'
+    xb = f'<r id="2"><t>{sep}</t><u>first\nsecond!</u><w>dos&#13;\nline&#13;\nEND</w><v>{long2}</v></r>'
     ca = f'h1,h2\n"{sep}","two\nlines"\n{long1},1\n'
     cb = f'h1,h2\n"{sep}","two\nlines!"\n{long2},1\n'
     return {'json': (json.dumps(a), json.dumps(b), '.json'), 'yaml': (yaml.safe_dump(a), yaml.safe_dump(b), '.yml'),
